@@ -7,7 +7,7 @@
    written header.  The composition is decided by the correspondence runs of the parser and writer models and by the
    literal round trip through the public API (oracle) on every generated graph. *)
 From Coq Require Import String Ascii List Bool Arith NArith ZArith.
-Require Import PyStr PyInt Sexp Xml M_C09 T_C09 M_C08 M_C08d T_C08 Ns Table M_Parse T_Parse M_Write T_Write XmlL M_ParseText M_WriteText T_WriteText T_ReadWritten T_Write2 T_C05 T_C05r.
+Require Import PyStr PyInt Sexp Xml M_C09 T_C09 M_C08 M_C08d T_C08 Ns Table M_Parse T_Parse M_Write T_Write XmlL M_ParseText M_WriteText T_WriteText T_ReadWritten T_Write2 T_C05 T_C05r T_ParseAttrs T_C05n T_C05a.
 Import ListNotations.
 Open Scope char_scope.
 
@@ -75,6 +75,108 @@ Proof. exact refs_roundtrip_complete. Qed.
 Theorem C05_same_node_functional : forall p ns1 n a b, NoDup ns1 -> same_node p ns1 n a -> same_node p ns1 n b -> a = b.
 Proof. exact same_node_functional. Qed.
 
+(* ---- the node rows, writer composed with parser (T_C05n.v) ----
+   The written rows are U's rows of the graph (C06_written_rows_exact); the parser makes one row of each written element, in order
+   (C05_rows_paired); and column by column that row is the graph's row: class and (URI, identifier) (C05_row_identity), browse name and the URI
+   of its namespace (C05_row_browsename: names without a second colon - the recorded finding of C01), DisplayName / Description as the reader
+   strips them (C05_row_texts), the typed value for variables and variable types inside the clean domain of C08 (C05_row_value, C05_row_no_value),
+   node references in DataType / ParentNodeId / MethodDeclarationId (C05_row_node_reference), the integer columns inside their range
+   (C05_row_int_attr), the two flag columns on the classes that carry them (C05_row_flag_attr), the text columns (C05_row_text_attr), SymbolicName,
+   and absent columns stay absent (C05_row_attr_absent). *)
+Theorem C05_rows_paired : forall E ns p w d k refs ns1 fo,
+  str_index (wp_uri w) (p_namespaces p) = Some k -> use_refs p w (Z.of_nat k) = Ok refs -> write_doc p w = Ok d -> parse_file E ns d = Ok (ns1, fo) ->
+  Forall2 (parsed_row_of E ns p d k refs) (w_written p k (w_in_use p k refs)) (fo_nodes fo).
+Proof. exact rows_match. Qed.
+Theorem C05_row_identity : forall E ns p w d k refs ns1 fo,
+  str_index (wp_uri w) (p_namespaces p) = Some k -> use_refs p w (Z.of_nat k) = Ok refs -> regular p k refs ->
+  write_doc p w = Ok d -> parse_file E ns d = Ok (ns1, fo) ->
+  (forall r, In r (p_nodes p) -> valid (nr_nodeid r) = true) ->
+  (forall r, In r (p_nodes p) -> rstrip (nid_value (nr_nodeid r)) = nid_value (nr_nodeid r)) ->
+  nth_error ns1 0 = Some (nth 0 (p_namespaces p) []) ->
+  forall x r', In x (w_written p k (w_in_use p k refs)) -> parsed_row_of E ns p d k refs x r' ->
+  nr_cls r' = nr_cls (fst (fst x)) /\ same_node p ns1 (nr_nodeid (fst (fst x))) (nr_nodeid r').
+Proof.
+  intros E ns p w d k refs ns1 fo Hk Hrefs Hreg Hw Hp Hv Hc Hz x r' Hx [Hrm Ham]. split.
+  - exact (row_class E ns p d k refs x r' Hrm).
+  - exact (row_nodeid E ns p w d k refs ns1 fo Hk Hrefs Hreg Hw Hp Hv Hc Hz x r' Hx Hrm).
+Qed.
+Theorem C05_row_browsename : forall E ns p w d k refs ns1 fo,
+  str_index (wp_uri w) (p_namespaces p) = Some k -> use_refs p w (Z.of_nat k) = Ok refs -> regular p k refs ->
+  write_doc p w = Ok d -> parse_file E ns d = Ok (ns1, fo) ->
+  nth_error ns1 0 = Some (nth 0 (p_namespaces p) []) ->
+  forall x r', In x (w_written p k (w_in_use p k refs)) -> parsed_row_of E ns p d k refs x r' ->
+  (forall b, nr_bns (fst (fst x)) = Some b -> (b < Z.of_nat (length (p_namespaces p)))%Z) -> has ":" (nr_bname (fst (fst x))) = false ->
+  nr_bname r' = nr_bname (fst (fst x)) /\
+  exists i j, nr_bns (fst (fst x)) = Some i /\ nr_bns r' = Some (Z.of_nat j) /\ nth_error ns1 j = Some (nth (Z.to_nat i) (p_namespaces p) []).
+Proof. intros E ns p w d k refs ns1 fo Hk Hrefs Hreg Hw Hp Hz x r' Hx [Hrm Ham]. exact (row_browsename E ns p w d k refs ns1 fo Hk Hrefs Hreg Hw Hp Hz x r' Hx Hrm Ham). Qed.
+Theorem C05_row_texts : forall E ns p d k refs x r', parsed_row_of E ns p d k refs x r' ->
+  nr_display r' = rstrip (nr_display (fst (fst x))) /\ nr_desc r' = rstrip (nr_desc (fst (fst x))).
+Proof. intros E ns p d k refs x r' [Hrm _]. exact (row_display E ns p d k refs x r' Hrm). Qed.
+Theorem C05_row_value : forall E ns p d k refs x r', parsed_row_of E ns p d k refs x r' -> forall v t,
+  is_var_cls (nr_cls (fst (fst x))) = true -> nr_value (fst (fst x)) = Some v -> vtree v = Some t -> dom08 E v = true -> nr_value r' = Some (canon v).
+Proof. intros E ns p d k refs x r' [Hrm _]. exact (row_value_some E ns p d k refs x r' Hrm). Qed.
+Theorem C05_row_no_value : forall E ns p d k refs x r', parsed_row_of E ns p d k refs x r' ->
+  nr_value (fst (fst x)) = None \/ is_var_cls (nr_cls (fst (fst x))) = false -> nr_value r' = None.
+Proof. intros E ns p d k refs x r' [Hrm _]. exact (row_value_none E ns p d k refs x r' Hrm). Qed.
+Theorem C05_row_node_reference : forall E ns p w d k refs ns1 fo,
+  str_index (wp_uri w) (p_namespaces p) = Some k -> use_refs p w (Z.of_nat k) = Ok refs -> regular p k refs ->
+  write_doc p w = Ok d -> parse_file E ns d = Ok (ns1, fo) ->
+  (forall r, In r (p_nodes p) -> valid (nr_nodeid r) = true) ->
+  (forall r, In r (p_nodes p) -> rstrip (nid_value (nr_nodeid r)) = nid_value (nr_nodeid r)) ->
+  nth_error ns1 0 = Some (nth 0 (p_namespaces p) []) ->
+  forall x r', In x (w_written p k (w_in_use p k refs)) -> parsed_row_of E ns p d k refs x r' ->
+  forall a n, mem_str a NODE_REF_ATTRS = true -> node_attr a (fst (fst x)) = Some (ANode n) -> is_node p n ->
+  exists n', node_attr a r' = Some (ANode n') /\ same_node p ns1 n n'.
+Proof. intros E ns p w d k refs ns1 fo Hk Hrefs Hreg Hw Hp Hv Hc Hz x r' Hx [Hrm Ham]. exact (row_node_reference E ns p w d k refs ns1 fo Hk Hrefs Hreg Hw Hp Hv Hc Hz x r' Hx Ham). Qed.
+Theorem C05_row_int_attr : forall E ns p d k refs x r', parsed_row_of E ns p d k refs x r' -> forall a z f,
+  In a WRITTEN_ATTRS -> node_attr a (fst (fst x)) = Some (AInt z) -> int_attr_cast a = Some f -> f z = z -> node_attr a r' = Some (AInt z).
+Proof. intros E ns p d k refs x r' [_ Ham]. exact (row_int_attr ns p d k refs x r' Ham). Qed.
+Theorem C05_row_flag_attr : forall E ns p d k refs x r', parsed_row_of E ns p d k refs x r' -> forall a b,
+  str_eqb a (lit "IsAbstract") || str_eqb a (lit "Symmetric") = true -> oth_val x a = Some (ABool b) -> node_attr a r' = Some (ABool b).
+Proof. intros E ns p d k refs x r' [_ Ham]. exact (row_bool_attr ns p d k refs x r' Ham). Qed.
+Theorem C05_row_text_attr : forall E ns p d k refs x r', parsed_row_of E ns p d k refs x r' -> forall a s,
+  In a WRITTEN_ATTRS -> mem_str a NODE_REF_ATTRS = false -> int_attr_cast a = None -> str_eqb a (lit "IsAbstract") || str_eqb a (lit "Symmetric") = false ->
+  node_attr a (fst (fst x)) = Some (AStr s) -> s <> [] -> (is_bool_attr a = true -> map lower_ascii s = s) -> node_attr a r' = Some (AStr s).
+Proof. intros E ns p d k refs x r' [_ Ham]. exact (row_text_attr ns p d k refs x r' Ham). Qed.
+Theorem C05_row_attr_absent : forall E ns p d k refs x r', parsed_row_of E ns p d k refs x r' -> forall a,
+  In a WRITTEN_ATTRS -> node_attr a (fst (fst x)) = None ->
+  node_attr a r' = if mem_str a BOOL_COLS && mem_str a (flat_map (fun e => map fst (ne_attrs e)) (d_nodes d)) then Some (ABool false) else None.
+Proof. intros E ns p d k refs x r' [_ Ham]. exact (row_attr_absent ns p d k refs x r' Ham). Qed.
+Theorem C05_row_symbolic_name : forall E ns p d k refs x r', parsed_row_of E ns p d k refs x r' -> forall s,
+  node_attr (lit "SymbolicName") (fst (fst x)) = Some (AStr s) -> node_attr (lit "SymbolicName") r' = Some (AStr s).
+Proof. intros E ns p d k refs x r' [_ Ham]. exact (row_symbolic_name ns p d k refs x r' Ham). Qed.
+
+(* ---- assembled over a whole parse (T_C05a.v): a set of documents that contains the document written for U is parsed by parse_files; every
+   graph reference with an endpoint in U is in the parsed reference table and every node of U has its row in the parsed node table, all
+   identifiers read in the FINAL namespace table (later files never move an index); conversely every parsed triple comes from one of the kept
+   documents, and when that is a written one it is a graph reference with an endpoint in its namespace ---- *)
+Theorem C05_assembled_references : forall E caller docs q, parse_files E caller docs = Ok q ->
+  forall p w d k refs, In d (kept caller docs) -> str_index (wp_uri w) (p_namespaces p) = Some k -> use_refs p w (Z.of_nat k) = Ok refs -> regular p k refs ->
+  write_doc p w = Ok d -> (forall r, In r (p_nodes p) -> valid (nr_nodeid r) = true) ->
+  (forall r, In r (p_nodes p) -> rstrip (nid_value (nr_nodeid r)) = nid_value (nr_nodeid r)) ->
+  nth_error (p_namespaces q) 0 = Some (nth 0 (p_namespaces p) []) ->
+  (forall t, In t refs -> touches p k refs t = true -> is_node p (fst (fst t)) /\ is_node p (snd (fst t)) /\ is_node p (snd t)) ->
+  forall t, In t refs -> touches p k refs t = true -> exists t', In t' (p_refs q) /\ same_triple p (p_namespaces q) t t'.
+Proof. exact refs_assembled_complete. Qed.
+Theorem C05_assembled_rows : forall E caller docs q, parse_files E caller docs = Ok q ->
+  forall p w d k refs, In d (kept caller docs) -> str_index (wp_uri w) (p_namespaces p) = Some k -> use_refs p w (Z.of_nat k) = Ok refs -> regular p k refs ->
+  write_doc p w = Ok d -> (forall r, In r (p_nodes p) -> valid (nr_nodeid r) = true) ->
+  (forall r, In r (p_nodes p) -> rstrip (nid_value (nr_nodeid r)) = nid_value (nr_nodeid r)) ->
+  nth_error (p_namespaces q) 0 = Some (nth 0 (p_namespaces p) []) ->
+  forall x, In x (w_written p k (w_in_use p k refs)) ->
+  exists nsb r', In r' (p_nodes q) /\ parsed_row_of E nsb p d k refs x r' /\ nr_cls r' = nr_cls (fst (fst x)) /\
+                 same_node p (p_namespaces q) (nr_nodeid (fst (fst x))) (nr_nodeid r').
+Proof. exact rows_assembled. Qed.
+Theorem C05_assembled_sound : forall E caller docs q, parse_files E caller docs = Ok q -> forall t', In t' (p_refs q) ->
+  exists d nsb nsa fo s, In d (kept caller docs) /\ parse_file E nsb d = Ok (nsa, fo) /\ In t' (fo_refs fo) /\ p_namespaces q = nsa ++ s /\
+  forall p w k refs, str_index (wp_uri w) (p_namespaces p) = Some k -> use_refs p w (Z.of_nat k) = Ok refs -> regular p k refs -> write_doc p w = Ok d ->
+    (forall r, In r (p_nodes p) -> valid (nr_nodeid r) = true) ->
+    (forall r, In r (p_nodes p) -> rstrip (nid_value (nr_nodeid r)) = nid_value (nr_nodeid r)) ->
+    nth_error (p_namespaces q) 0 = Some (nth 0 (p_namespaces p) []) ->
+    (forall t, In t refs -> touches p k refs t = true -> is_node p (fst (fst t)) /\ is_node p (snd (fst t)) /\ is_node p (snd t)) ->
+    exists t, In t refs /\ touches p k refs t = true /\ same_triple p (p_namespaces q) t t'.
+Proof. exact refs_assembled_sound. Qed.
+
 Print Assumptions C05_identifier_text.
 Print Assumptions C05_index_translation.
 Print Assumptions C05_shared_references_merge.
@@ -86,3 +188,18 @@ Print Assumptions C05_nodeids_roundtrip.
 Print Assumptions C05_references_roundtrip_sound.
 Print Assumptions C05_references_roundtrip_complete.
 Print Assumptions C05_same_node_functional.
+Print Assumptions C05_rows_paired.
+Print Assumptions C05_row_identity.
+Print Assumptions C05_row_browsename.
+Print Assumptions C05_row_texts.
+Print Assumptions C05_row_value.
+Print Assumptions C05_row_no_value.
+Print Assumptions C05_row_node_reference.
+Print Assumptions C05_row_int_attr.
+Print Assumptions C05_row_flag_attr.
+Print Assumptions C05_row_text_attr.
+Print Assumptions C05_row_attr_absent.
+Print Assumptions C05_row_symbolic_name.
+Print Assumptions C05_assembled_references.
+Print Assumptions C05_assembled_rows.
+Print Assumptions C05_assembled_sound.
